@@ -30,3 +30,24 @@ Theorem C36_csv_record_roundtrip_refuted_single_null :
   exists fs, csv_read (csv_write fs) = Some (None, []) /\ fs = [None].
 Proof. exact csv_record_roundtrip_refuted_single_null. Qed.
 Print Assumptions C36_csv_record_roundtrip_refuted_single_null.
+
+(* ---- round 2: per-type value formatting, oracle on the model ---- *)
+Theorem C36_int_fmt_roundtrip : forall z, parse_int (fmt_int z) = Some z.
+Proof. exact int_fmt_roundtrip. Qed.
+Print Assumptions C36_int_fmt_roundtrip.
+
+(* Full statement (refuted for the BIT class): forall v, parse_val v (fmt_val v) = Some v. *)
+Theorem C36_value_fmt_roundtrip_partial : forall v, val_ok v -> parse_val v (fmt_val v) = Some v.
+Proof. exact value_fmt_roundtrip_partial. Qed.
+Print Assumptions C36_value_fmt_roundtrip_partial.
+
+Theorem C36_value_fmt_roundtrip_refuted_bit :
+  parse_val (VBit [170]) (fmt_val (VBit [170])) = None
+  /\ parse_val (VBit [49]) (fmt_val (VBit [49])) = Some (VBit [1]).
+Proof. exact value_fmt_roundtrip_refuted_bit. Qed.
+Print Assumptions C36_value_fmt_roundtrip_refuted_bit.
+
+Theorem C36_oracle_on_model_str : forall s, Forall (fun b => b < 256) s ->
+  oracle (CStr s, OStr (sql_quote s) (hex_encode s) true s) = true.
+Proof. exact oracle_on_model_str. Qed.
+Print Assumptions C36_oracle_on_model_str.
